@@ -67,7 +67,11 @@ def _hist(k, o1, a1, o2, a2):
 def _apply(o, p, q):
     try:
         r = _OPS[o](p, q)
-        return ('ok', str(r), pv(r, '_get_type'), pv(r, '_is_repeatable'))
+        try:       # the result's observable matching behaviour (a result that kept stale state of its operand differs here)
+            beh = (tuple(r.get_matches_and_pos(_PROBE)), r.is_exact_match("ab"), r.get_captures("xab"))
+        except Exception as e:
+            beh = ('beh-exc', type(e).__name__)
+        return ('ok', str(r), pv(r, '_get_type'), pv(r, '_is_repeatable'), beh)
     except (TypeError, AttributeError) as e:
         return ('n/a',)
     except Exception as e:
@@ -144,6 +148,14 @@ def seed_sources(tier):
            "AnyFrom('b', 'a', 'c', '_') | AnyDigit()", "Concat(AnyFrom('x', '[', '^'), 'y') + AnyButFrom(']', '-', 'a')",
            "Optional(AnyFrom('(', ')', '|')) + Either(AnyFrom('a', 'c'), 'b')", "AnyWordChar() - AnyFrom('C', 'c', 'G', 'g', '3')",
            "AnyPunctuation() - AnyFrom('!', '~', '[')", "Numeral(16, 1, 4)", "Numeral(12)", "IPv4()", "Word(2, 5)", "Date('dd/mm/yyyy')", "Integer(3, 120)"]
+    # meta patterns in both is_extensible settings: built in a different order in each interpreter, so a result that depends on
+    # what was constructed before (class-level caches keyed too coarsely) shows up as two different texts for one expression
+    for ctor in ("Integer(0, 999%s)", "Integer(5, 2500%s)", "PositiveInteger(0, 255%s)", "NegativeInteger(1, 1000%s)", "UnsignedInteger(10, 4095%s)",
+                 "Decimal(0, 99, 1, 2%s)", "UnsignedDecimal(0, 120, 1, None%s)", "Numeral(10, 1, 3%s)", "Numeral(2, 1, 1%s)", "Word(2, 5%s)",
+                 "WordContains(['ab', 'c']%s)", "WordStartsWith('ab'%s)", "IPv4(%s)", "IPv6(%s)", "Date('dd/mm/yyyy'%s)", "Date('d-m-yy'%s)"):
+        for ext in ("", "is_extensible=True"):
+            sep = ", " if (ext and not ctor.endswith("(%s)")) else ""
+            cls.append(ctor % (sep + ext))
     return [dsl.src(e, "class") for e in ps] + cls
 
 
@@ -185,6 +197,8 @@ def task_seed_equiv(idx, outcomes):
     ss = 0.0
     import re as _re
     for other in pats[1:]:
+        if other == base:
+            continue
         try:
             verdict, text, s1, info = progs.equiv_query(base, other, 4)
         except _re.error as x:
@@ -211,7 +225,11 @@ def run(tier):
     run.add(engine.to_results(cases, outs))
     ks = range(NPOOL) if tier == "thorough" else sorted({11, 4, common.SEED % 11})
     chunks = [list(range(NOPS))[i::5] for i in range(5)]
-    run.add(common.run_tasks(__name__, [("task_histories", (k, ch)) for k in ks for ch in chunks]))
+    htasks = [("task_histories", (k, ch)) for k in ks for ch in chunks]
+    # every other pool object: histories that start with one of the operations that change hidden state of the object itself
+    # (compile / retained compiled pattern / matching), followed by every operation
+    htasks += [("task_histories", (k, list(range(NOPS - 6, NOPS)))) for k in range(NPOOL) if k not in ks]
+    run.add(common.run_tasks(__name__, htasks))
     # hash seeds
     srcs = seed_sources(tier)
     seed_list = list(range(4)) if tier == "quick" else list(range(16))
@@ -220,6 +238,8 @@ def run(tier):
     same, tasks = 0, []
     for i, s in enumerate(srcs):
         outs_ = [(k[0], k[1], v) for k, v in by[s].items()]
+        if any(o[0] == "exc" and o[1] in ("NameError", "SyntaxError") for o in outs_):
+            raise RuntimeError("seed source %r does not evaluate: %r" % (s, outs_))
         if len(outs_) == 1:
             same += 1
         else:
@@ -232,7 +252,7 @@ def run(tier):
                 "expressions_rebuilt_under_seeds": len(srcs), "seed_dependent_texts_checked_for_equivalence": len(tasks)}
     run.bounds = {"step": "%d single operations, literal content symbolic (one character, every code point)" % len(step_cases(tier)),
                   "histories": "all two-operation histories: %d operation codes x %d operands, twice, on %s (exhaustive enumeration of concrete runs - validation, not a solver verdict)" %
-                  (NOPS, NPOOL, "every pool object" if tier == "thorough" else "3 pool objects"),
+                  (NOPS, NPOOL, "every pool object" if tier == "thorough" else "3 pool objects (the others: first operation among the 6 that touch hidden state)"),
                   "hash_seeds": "%d expressions rebuilt under PYTHONHASHSEED %s" % (len(srcs), seed_list)}
     run.assumptions = ["an object's value = (pattern text, inferred type, repeatable flag, verbose class text); the compiled cache may change",
                        "histories longer than two operations follow by induction only for the enumerated operations (each operation preserves every operand's value)",
